@@ -5,6 +5,9 @@
 // entry.  The engine's contract (unit entries_engine) needs max_descriptors < u16::MAX; chown / chmod / copy / remove_all / the
 // listing helpers (units memfs_ops, stdfs_os) assume exactly these defaults before they apply their own options.
 //@ prelude base errors io iter path_abs memfs_state memfs_api
+// ASSUMED[hashmap]: MemfsEntries (HashMap<PathBuf, MemfsEntry> behind an Arc) is a finite map keyed by the absolute clean path; HashSet iteration yields every element exactly once
+// ASSUMED[read-dir]: fs::read_dir(p) answers with the listing the OS reports for p (uninterpreted os_dir_listing) or an io error
+// ASSUMED[upcast]: MemfsEntry::upcast / StdfsEntry::upcast wrap the entry unchanged in the VfsEntry enum (unit entry_follow proves r == VfsEntry::Memfs(self))
 //@ struct file=src/sys/fs/memfs/file.rs name=MemfsFile
 //@ endstruct
 //@ struct file=src/sys/fs/memfs/entry.rs name=MemfsEntry
